@@ -94,6 +94,17 @@ func (ssc *defaultStatefulSetControl) UpdateStatefulSet(set *apps.StatefulSet, p
 	if err != nil {
 		return err
 	}
+	// Work only on revisions this set controls. Orphans are adopted before this
+	// point (adoptOrphanRevisions); one that shows up in between is left for the
+	// next reconcile instead of being used as (or trimmed from) the set's
+	// history while another set with an overlapping selector may still adopt it.
+	owned := revisions[:0]
+	for i := range revisions {
+		if metav1.IsControlledBy(revisions[i], set) {
+			owned = append(owned, revisions[i])
+		}
+	}
+	revisions = owned
 	k8s.SortControllerRevisions(revisions)
 
 	// get the current, and update revisions
